@@ -11,6 +11,6 @@ pub mod stubs;
 #[path = "../../common/tracing_stubs.rs"]
 pub mod tracing_stubs;
 #[cfg(kani)]
-mod c17_probe;
+mod c17_file;
 #[cfg(kani)]
 mod c17_history;
